@@ -25,6 +25,7 @@ def run(chk: Check):
 
     var_wiring(chk, rng)
     chains(chk, rng)
+    groups(chk, rng)
 
 
 VW_MC = """CONSTANTS NV = 2 NN = {nn} Kind <- Kind{nn} Names = {names} Atomic = {atomic}
@@ -102,3 +103,28 @@ def chains(chk, rng):
         cfg = "CONSTANTS ApplyThinning = %s MaxEpochs = 99 MaxItems = 100000 Thins = {} Sizes = {}\n" % ("TRUE" if at else "FALSE")
         chk.tv("Trace_Chain.tla", trs, tag=f"chain_{at}", cfg_extra=cfg, keyfn=lambda r: f"chain:{r.conjunct}",
                describe=lambda r: str(r.trace["ev"][r.line - 1])[:300])
+
+
+GR_MC = """CONSTANTS NM = 3 GNames = {{"a", "b"}} Atomic = {at} MaxGroups = 4
+SPECIFICATION Spec
+"""
+
+
+def groups(chk, rng):
+    """Groups.tla: registration of group members; atomic (intended) vs as coded (G3)."""
+    from vlib.core import run_tlc
+    chk.mc("MC_Groups.tla", GR_MC.format(at="TRUE") + "INVARIANT RegistrationsAreReal\nINVARIANT MembersAreRegistered\n"
+           "PROPERTY RejectedIsNoOp\n", tag="groups-atomic", expect_actions=["NewGroup"], workers=4,
+           what="3 members, names {a,b}, <= 4 groups: with an atomic constructor registrations and memberships agree")
+    chk.mc("MC_Groups.tla", GR_MC.format(at="FALSE") + "INVARIANT MembersAreRegistered\n", tag="groups-as-coded",
+           expect_actions=["NewGroup"], workers=4, what="as coded: every member of a constructed group is registered to it")
+    r = run_tlc("MC_Groups.tla", GR_MC.format(at="FALSE") + "INVARIANT RegistrationsAreReal\n", tag="growth-groups-g3", workers=1,
+                timeout=120)
+    chk.extra["G3_as_coded_counterexample"] = r.error or "none"
+    chk.note("G3 (not a listed property): a rejected Group(name, ...) constructor has already registered the members listed "
+             "before the offending one to a group object that is never returned; they can no longer join a group of that name "
+             f"(TLC: {r.error}); the traces of real objects are validated against the as-coded spec")
+    trs = [D.groups_trace(rng) for _ in range(100 if chk.quick else 3000)]
+    cfg = 'CONSTANTS NM = 4 GNames = {"a", "b"} Atomic = FALSE MaxGroups = 99\n'
+    chk.tv("Trace_Groups.tla", trs, tag="groups", cfg_extra=cfg, keyfn=lambda r: f"groups:{r.conjunct}",
+           describe=lambda r: str(r.trace["ev"][r.line - 1])[:300])
